@@ -775,7 +775,7 @@ func sampleOf(c *Case) any {
 	return s
 }
 
-const ruleText = "requests = grammar-aware mutations of valid requests (plus raw bytes) built for every endpoint of (a) the testpb services registered with their generated Register*Server functions, (b) the standard harness service, (c) generated rule sets (multi-segment ** variables, typed variables, nested fields, variables / body / response_body selectors on scalar, repeated, map and message fields, websocket rules with and without body) and hand-written hostile sets; mutations cover paths (near misses, token soup, 63/64/65 tokens, invalid UTF-8, huge segments), query keys walking the schema, header tables, header-value grammar (valid media-range / coding / token lists with every separator, control and non-ASCII byte, comments, quoted strings, unbalanced quotes and empty elements inserted at every lexical gap: random edits everywhere plus an exhaustive sweep over succeeding, handler-failing and route-failing requests of every entry), bodies (JSON junk, deep JSON, invalid protobuf, varint prefixes of 1-11 bytes, broken gzip, gRPC frames with lying length / flag fields, 0-4-byte messages, broken base64, hostile WebSocket frames) and the status the handler returns (any code incl. 17 and out-of-range, hostile messages, details, headers, trailers). Entries: http, grpc (ProtoMajor 2), grpc-web, grpc-web-text, WebSocket upgrade on a plain recorder, on a hijackable in-memory connection and on a real listener, HTTP/1 and h2c on a real listener (server built by larking.NewServer); every mask of {unary interceptor, stream interceptor, stats handler} plus small limits and an extra codec. Further lanes: muxes in other life-cycle states (brand new, only registration rejected, only connection dropped, registered connection whose refresh with changed descriptors was refused) receiving valid and hostile requests of every entry under all 8 masks; on the WebSocket path a sweep of lengths 1..200 of everything that ends up in an error message (handler message in 1..4-byte runes, unknown JSON field name, echoed path variable / message field), every upgraded exchange having to end with well-formed frames and a well-formed close frame; compressed messages (gRPC, gRPC-web, gRPC-web-text frames and gzip HTTP bodies) whose decompressed size is swept over limit-3..limit+3 for 64-byte, 1024-byte and the default 4 MiB receive limits; clients that keep their sending side open (gRPC / gRPC-web client-streaming calls whose body blocks until the server closes it, with handlers that return without reading, after one message, or while a Recv is pending in another goroutine, local and proxied; WebSocket clients that send exactly the request of a unary / server-streaming method and then only read): the call must still end; bursts of 16 goroutines serving gzip-compressed requests concurrently on one mux (pooled state), and the standard service proxied to a real grpc-go back-end through RegisterConn. Oracle: recover(), 20 s watchdog with goroutine dump, valid HTTP status, 'panic serving' in the server log, handlers' receive counter against the request size. distinct = (entry, target kind, option mask, first two mutation classes, outcome class)"
+const ruleText = "requests = grammar-aware mutations of valid requests (plus raw bytes) built for every endpoint of (a) the testpb services registered with their generated Register*Server functions, (b) the standard harness service, (c) generated rule sets (multi-segment ** variables, typed variables, nested fields, variables / body / response_body selectors on scalar, repeated, map and message fields, websocket rules with and without body) and hand-written hostile sets; mutations cover paths (near misses, token soup, 63/64/65 tokens, invalid UTF-8, huge segments), query keys walking the schema, header tables, header-value grammar (valid media-range / coding / token lists with every separator, control and non-ASCII byte, comments, quoted strings, unbalanced quotes and empty elements inserted at every lexical gap: random edits everywhere plus an exhaustive sweep over succeeding, handler-failing and route-failing requests of every entry), bodies (JSON junk, deep JSON, invalid protobuf, varint prefixes of 1-11 bytes, broken gzip, gRPC frames with lying length / flag fields, 0-4-byte messages, broken base64, hostile WebSocket frames) and the status the handler returns (any code incl. 17 and out-of-range, hostile messages, details, headers, trailers). Entries: http, grpc (ProtoMajor 2), grpc-web, grpc-web-text, WebSocket upgrade on a plain recorder, on a hijackable in-memory connection and on a real listener, HTTP/1 and h2c on a real listener (server built by larking.NewServer); every mask of {unary interceptor, stream interceptor, stats handler} plus small limits and an extra codec. Further lanes: muxes in other life-cycle states (brand new, only registration rejected, only connection dropped, registered connection whose refresh with changed descriptors was refused, service served by two connections of which one was replaced by a third after traffic) receiving valid and hostile requests of every entry under all 8 masks; on the WebSocket path a sweep of lengths 1..200 of everything that ends up in an error message (handler message in 1..4-byte runes, unknown JSON field name, echoed path variable / message field), every upgraded exchange having to end with well-formed frames and a well-formed close frame; compressed messages (gRPC, gRPC-web, gRPC-web-text frames and gzip HTTP bodies) whose decompressed size is swept over limit-3..limit+3 for 64-byte, 1024-byte and the default 4 MiB receive limits; clients that keep their sending side open (gRPC / gRPC-web client-streaming calls whose body blocks until the server closes it, with handlers that return without reading, after one message, or while a Recv is pending in another goroutine, local and proxied; WebSocket clients that send exactly the request of a unary / server-streaming method and then only read): the call must still end; bursts of 16 goroutines serving gzip-compressed requests concurrently on one mux (pooled state), and the standard service proxied to a real grpc-go back-end through RegisterConn. Oracle: recover(), 20 s watchdog with goroutine dump, valid HTTP status, 'panic serving' in the server log, handlers' receive counter against the request size. distinct = (entry, target kind, option mask, first two mutation classes, outcome class)"
 
 // RunC09 is the robustness check.
 func RunC09(r *mon.Run) {
@@ -884,7 +884,7 @@ func targetFor(c *Case) (*target, error) {
 		return newTestpbTarget(), nil
 	case "std":
 		return newStdTarget()
-	case "life:new", "life:failed", "life:dropped", "life:refresh-refused":
+	case "life:new", "life:failed", "life:dropped", "life:refresh-refused", "life:replaced":
 		l, err := newLifeTarget(c.Target)
 		if err != nil {
 			return nil, err
